@@ -229,3 +229,91 @@ ASSIGN_RESIDS = REG.add(Contract(
                   match_wf=lambda rl, m: z3.ForAll([r_], z3.Implies(z3.Select(m.dom, r_), z3.Select(rl.fields["nodes"].dom, m.comps[0][r_])))),
     props=("C02",)))
 CONTRACTS = [FIND_ATOMS, MATCH_LINK, ASSIGN_RESIDS]
+
+
+# ---- _check_relative_order: a link's residues satisfy the order specifications -----------------------------------------------------
+from pyvc.types import TBool, TODict        # noqa: E402
+REG_ORD = Registry()
+MO = z3.Function("vermouth_match_order", NS, z3.IntSort(), NS, z3.IntSort(), z3.BoolSort())     # vermouth.processors.do_links.match_order (dependency, uninterpreted)
+o_ = z3.Const("o_", NS)
+o2_ = z3.Const("o2_", NS)
+c_ = z3.Int("c_")
+
+REG_ORD.add(Contract("vermouth.processors.do_links:match_order", params=dict(order1=TNode, resid1=TInt, order2=TNode, resid2=TInt), result=TBool,
+                     ensures={"a function of its arguments": "result == MO(order1, resid1, order2, resid2)"}, spec_fns=dict(MO=MO), trusted=True,
+                     note="vermouth's order comparison (pure; raises ValueError for malformed order strings, which a parsed link does not carry)"))
+
+
+def mo_symmetric():
+    r1, r2 = z3.Int("r1_"), z3.Int("r2_")
+    return z3.ForAll([o_, r1, o2_, r2], MO(o_, r1, o2_, r2) == MO(o2_, r2, o_, r1))
+
+
+def nn(resids, orders):
+    return z3.If(orders.n <= resids.n, orders.n, resids.n)
+
+
+FO = z3.Function("first_occurrence", NS, z3.IntSort())      # ghost: index of the first occurrence of an order specification in `orders`
+
+
+def fo_def(resids, orders):
+    """definition of first_occurrence for the specifications that occur among the first n entries: it is an occurrence, and no
+    occurrence comes before it (every finite list has one: a definitional axiom, listed as an assumption)"""
+    n = nn(resids, orders)
+    return z3.ForAll([i_], z3.Implies(z3.And(0 <= i_, i_ < n), z3.And(0 <= FO(slist_get(orders, i_)), FO(slist_get(orders, i_)) <= i_,
+                                                                       slist_get(orders, FO(slist_get(orders, i_))) == slist_get(orders, i_))))
+
+
+def first(orders, i):
+    return FO(slist_get(orders, i)) == i
+
+
+def consistent(resids, orders, upto=None):
+    n = nn(resids, orders) if upto is None else upto
+    return z3.ForAll([i_, j_], z3.Implies(z3.And(0 <= i_, i_ < n, 0 <= j_, j_ < n, slist_get(orders, i_) == slist_get(orders, j_)),
+                                          slist_get(resids, i_) == slist_get(resids, j_)))
+
+
+def pairs_ok(resids, orders):
+    """every two different order specifications (each with the residue of its first occurrence, earlier one first) satisfy match_order"""
+    n = nn(resids, orders)
+    return z3.ForAll([i_, j_], z3.Implies(z3.And(0 <= i_, i_ < j_, j_ < n, first(orders, i_), first(orders, j_)),
+                                          MO(slist_get(orders, i_), slist_get(resids, i_), slist_get(orders, j_), slist_get(resids, j_))))
+
+
+def table_ok(om, F, resids, orders, k):
+    """the table after k entries: one entry per order specification seen, holding the residue of its first occurrence, inserted in the
+    order of first occurrence (ghost F: the index of the first occurrence, equal to the specification function first_occurrence)"""
+    val = om.comps[0]
+    f1, f2 = F.comps[0][o_], F.comps[0][o2_]
+    return z3.And(
+        z3.ForAll([o_], z3.Implies(z3.Select(om.dom, o_), z3.And(f1 == FO(o_), 0 <= f1, f1 < k, slist_get(orders, f1) == o_, val[o_] == slist_get(resids, f1)))),
+        z3.ForAll([i_], z3.Implies(z3.And(0 <= i_, i_ < k), z3.And(z3.Select(om.dom, slist_get(orders, i_)), val[slist_get(orders, i_)] == slist_get(resids, i_)))),
+        z3.ForAll([o_, o2_], z3.Implies(z3.And(z3.Select(om.dom, o_), z3.Select(om.dom, o2_)), (om.pos[o_] < om.pos[o2_]) == (f1 < f2))))
+
+
+def combos_ok(om, C, j):
+    e = slist_get(C, c_)
+    return z3.ForAll([c_], z3.Implies(z3.And(0 <= c_, c_ < j), MO(e[0][0], e[0][1], e[1][0], e[1][1])))
+
+
+def hook_first(eng, env):
+    F = env["_F"]
+    env["_F"] = SDict(F.k, F.v, F.dom, [z3.Store(F.comps[0], env["order"], env["k"])])
+
+
+CHECK_ORDER = REG_ORD.add(Contract(
+    "polyply.src.apply_links:_check_relative_order", params=dict(resids=TList(TInt), orders=TList(TNode)), result=TBool,
+    ensures={"True only when equal order specifications name one residue": "implies(result, consistent(resids, orders))",
+             "True only when every two different specifications (first occurrences, earlier first) satisfy vermouth's match_order": "implies(result, pairs_ok(resids, orders))",
+             "False only when one of the two fails": "implies(not result, not (consistent(resids, orders) and pairs_ok(resids, orders)))"},
+    axioms={"definition of the ghost function first_occurrence (every specification that occurs has a first occurrence)": "fo_def(resids, orders)",
+            "vermouth's match_order gives the same verdict when the two residues are exchanged (its comparison matrix is built that way; checked exhaustively "
+            "for 14 order specifications x resids 1..5 against the installed vermouth when this contract was written)": "mo_symmetric()"},
+    locals={"order_match": TODict(TNode, TInt)}, ghost_locals={"_F": TDict(TNode, TInt)},
+    ghost={"after:order_match[order] = resid": hook_first},
+    loops={0: Loop({"table": "table_ok(order_match, _F, resids, orders, k)", "consistent so far": "consistent(resids, orders, k)"}, modifies=["_F"]),
+           1: Loop({"table": "table_ok(order_match, _F, resids, orders, nn(resids, orders))", "consistent": "consistent(resids, orders)",
+                    "pairs so far": "combos_ok(order_match, _seq1, k)"})},
+    spec_fns=dict(consistent=consistent, pairs_ok=pairs_ok, table_ok=table_ok, combos_ok=combos_ok, nn=nn, fo_def=fo_def, mo_symmetric=mo_symmetric, implies=lambda a, b: z3.Implies(a, b) if not isinstance(a, bool) else (b if a else True)),
+    props=("C02",), note="order specifications are opaque values (only compared, hashed and handed to match_order); the table is an insertion-ordered dict"))
